@@ -250,3 +250,56 @@ func TestC18_GridMass(t *testing.T) {
 }
 
 var _ = io.EOF
+
+// C18Bare — the UUID generator itself, hammered from many goroutines in tight loops (no message building in
+// between, so that calls overlap as much as possible): every value well-formed, no value handed out twice.
+type C18Bare struct {
+	Goroutines int `json:"goroutines"`
+	PerG       int `json:"perGoroutine"`
+}
+
+func checkC18Bare(c C18Bare) h.Outcome {
+	o := h.Outcome{NonTrivial: true, Classes: []string{fmt.Sprintf("bare:goroutines:%d", c.Goroutines), fmt.Sprintf("bare:ids:%d", c.Goroutines*c.PerG)}}
+	randMu.Lock()
+	defer randMu.Unlock()
+	out := make([][][16]byte, c.Goroutines)
+	start := make(chan struct{})
+	var wg sync.WaitGroup
+	for g := 0; g < c.Goroutines; g++ {
+		wg.Add(1)
+		go func(g int) {
+			defer wg.Done()
+			buf := make([][16]byte, 0, c.PerG)
+			<-start
+			for i := 0; i < c.PerG; i++ {
+				buf = append(buf, [16]byte(*uuid.NewV4()))
+			}
+			out[g] = buf
+		}(g)
+	}
+	close(start)
+	wg.Wait()
+	seen := make(map[[16]byte]struct{}, c.Goroutines*c.PerG)
+	for _, l := range out {
+		for _, u := range l {
+			if u[6]&0xf0 != 0x40 || u[8]&0xc0 != 0x80 {
+				o.Violation = h.V("id-format", "UUID %x is not version 4 / variant 1", u)
+				return o
+			}
+			if _, dup := seen[u]; dup {
+				o.Violation = h.V("id-repeat", "UUID %x handed out twice among %d values drawn by %d goroutines", u, c.Goroutines*c.PerG, c.Goroutines)
+				return o
+			}
+			seen[u] = struct{}{}
+		}
+	}
+	return o
+}
+
+func TestC18_GridBare(t *testing.T) {
+	per := 100000
+	if h.Thorough() {
+		per = 400000
+	}
+	h.RunCases(t, "C18.bare", []C18Bare{{Goroutines: 16, PerG: per}, {Goroutines: 2, PerG: per}, {Goroutines: 64, PerG: per / 8}}, checkC18Bare)
+}
